@@ -498,7 +498,8 @@ def configs(tier):
         if quick and i % 3 != 0:
             continue
         pairs.append(dict(c, b2b=True, depth=1 if quick else 2, all_sel=False))
-    return out + pairs
+    twice = [dict(c, elab_twice=True) for c in out[1::5]]
+    return out + pairs + twice
 
 
 def run_config(cfg, tier, seed):
